@@ -62,3 +62,24 @@ package nodes
 //@   stream 1 step INM kept: forallK(k, k > lastInM().Watermark.ns || lastInM().Type != 0 ==> thas(records.tree, k) == old(thas(records.tree, k)))
 //@   ensures flush: result == nil ==> forallK(k, !thas(records.tree, k))
 //@   ensures errprop: runErr != nil ==> result != nil
+
+// C15/C16/C03 group-by emission (CustomTriggerGroupBy.trigger), per polled key k — for whatever set of keys the
+// trigger polled: a retraction is produced exactly when a row was previously sent for k, and it carries exactly that
+// remembered row; an insertion is produced exactly when the group still exists, and that row is remembered; if the
+// group is gone nothing is remembered any more. So per key the consolidated output is "the remembered row", and no
+// retraction is ever produced for a row that is not present. Other keys' remembered rows are untouched.
+//@ spec prevItem(t *btree.BTree, k int) *previouslySentValuesItem = tget(t, k, previouslySentValuesItem)
+//@ spec prevRI(t *btree.BTree) bool = addr(t) > 0 && forallK(k, thas(t, k) ==> ttag(t, k) == typeidptr(previouslySentValuesItem) && 0 < addr(prevItem(t, k)) && addr(prevItem(t, k)) < frontier() && cls(prevItem(t, k).GroupKey) == k)
+//@ spec aggRI(t *btree.BTree) bool = addr(t) > 0 && forallK(k, thas(t, k) ==> ttag(t, k) == typeidptr(aggregatesItem) && 0 < addr(tget(t, k, aggregatesItem)) && addr(tget(t, k, aggregatesItem)) < frontier())
+//@ func (*CustomTriggerGroupBy).trigger
+//@   requires prevRI(previouslySentValues) && aggRI(aggregates) && addr(previouslySentValues) != addr(aggregates)
+//@   loop 1 invariant ri: prevRI(previouslySentValues) && aggRI(aggregates) && len(OUT) >= old(len(OUT)) && len(OUTM) == old(len(OUTM))
+//@   loop 1 invariant aggs: forallK(k, thas(aggregates, k) == old(thas(aggregates, k)))
+//@   loop 1 step retract: old(thas(previouslySentValues, now(cls(key)))) ==> len(OUT) >= old(len(OUT)) + 1 && OUT[old(len(OUT))].Retraction && OUT[old(len(OUT))].Values.base == old(prevItem(previouslySentValues, now(cls(key))).Values.base) && OUT[old(len(OUT))].Values.off == old(prevItem(previouslySentValues, now(cls(key))).Values.off) && OUT[old(len(OUT))].Values.len == old(prevItem(previouslySentValues, now(cls(key))).Values.len)
+//@   loop 1 step count: len(OUT) == old(len(OUT)) + ite(old(thas(previouslySentValues, now(cls(key)))), 1, 0) + ite(thas(aggregates, cls(key)), 1, 0)
+//@   loop 1 step insert: thas(aggregates, cls(key)) ==> !lastOut().Retraction && thas(previouslySentValues, cls(key)) && prevItem(previouslySentValues, cls(key)).Values.base == lastOut().Values.base && prevItem(previouslySentValues, cls(key)).Values.off == lastOut().Values.off && prevItem(previouslySentValues, cls(key)).Values.len == lastOut().Values.len
+//@   loop 1 step forget: !thas(aggregates, cls(key)) ==> !thas(previouslySentValues, cls(key))
+//@   loop 1 step frame: forallK(k, k != cls(key) ==> thas(previouslySentValues, k) == old(thas(previouslySentValues, k)))
+//@   ensures polled: calls(Poll) == old(calls(Poll)) + 1
+//@   ensures ri: result == nil ==> prevRI(previouslySentValues) && aggRI(aggregates)
+//@   ensures nometa: len(OUTM) == old(len(OUTM))
